@@ -353,6 +353,44 @@ def span_hooks(e3):
         check.discharge_many(e3.res, specs, 120)
 
 
+def tree_confirm(tname, ops, kind, fld, mk, mv, include):
+    """replay of a solver model of a span tree: the same tree, names, values and filter verdicts through the public API"""
+    def h(ob, model):
+        import replay_e3
+        ev = lambda t: model.eval(t, model_completion=True)
+        ncls, vcls = {}, {}
+        nidx = lambda t: ncls.setdefault(ev(t).as_long(), len(ncls))
+        vidx = lambda t: vcls.setdefault(ev(t).as_long(), len(vcls))
+        inp = {"nops": len(ops), "kind": ("counter", "gauge", "histogram").index(kind)}
+        for i, op in enumerate(ops):
+            inp[f"op{i}_kind"] = ("new", "enter", "exit", "record", "emit").index(op[0])
+            if op[0] in ("new", "enter", "record"):
+                inp[f"op{i}_span"] = op[1]
+            if op[0] == "new":
+                inp[f"op{i}_parent"] = 0 if op[3] == "ctx" else (1 if op[3] == "root" else 2 + op[3][1])
+            if i in fld:
+                inp[f"op{i}_name"], inp[f"op{i}_val"] = nidx(fld[i][0]), vidx(fld[i][1])
+            if op[0] == "emit":
+                inp[f"op{i}_nl"] = op[1]
+        for j in range(len(mk)):
+            inp[f"m{j}_name"], inp[f"m{j}_val"] = nidx(mk[j]), vidx(mv[j])
+        for val, idx in ncls.items():
+            inp[f"admit_{idx}"] = 1 if z3.is_true(ev(include(z3.IntVal(val)))) else 0
+        pname = ob.name.split(":")[1]
+        os.makedirs(os.path.join(REPLAYS, "C17"), exist_ok=True)
+        pp = os.path.join(REPLAYS, "C17", f"{ob.name.replace(':', '.')}.plan")
+        open(pp, "w").write(replay_e3.plan_text("c17t", pname, {}, [], inp))
+        status, out = replay_e3.run("c17t", pp)
+        ob.sample = {"tree": tname, "inputs": inp, "native_replay": {"status": status, "output": out[-600:]}}
+        ob.detail += f" | native replay of the tree through the public API (real tracing registry): {status}"
+        ob.replay = pp
+        ob.reproduced = status == "reproduced"
+        if not ob.reproduced:
+            ob.status = "error"
+            ob.detail += " — not violated natively: treated as an encoder/model problem, not reported as a violation"
+    return h
+
+
 def native_confirm(ob, model):
     """the rule that failed in the encoding must also fail in the native battery (public API, real tracing registry)"""
     import replay_e3
@@ -390,7 +428,9 @@ def _discharge_with_replay(res, specs, timeout=120):
 def run(tier, seed, t0):
     check.discharge_many = _discharge_with_replay
     e3 = _e3.E3("C17")
-    for nm_, fn in (("c17_merge", merge_kernels), ("c17_enhance_key", enhance), ("c17_span_hooks", span_hooks)):
+    for nm_, fn in (("c17_merge", merge_kernels), ("c17_enhance_key", enhance), ("c17_span_hooks", span_hooks), ("c17_span_tree", lambda e: span_tree(e, tier == "thorough"))):
+        if os.environ.get("VERIF_C17_ONLY") and os.environ["VERIF_C17_ONLY"] != nm_:
+            continue
         try:
             fn(e3)
         except _e3.ENC_ERRORS as ex:
@@ -401,6 +441,238 @@ def run(tier, seed, t0):
 
 def replay(path):
     import replay_e3
-    status, out = replay_e3.run("c17", path)
+    status, out = replay_e3.run("c17t" if open(path).read().startswith("scenario c17t") else "c17", path)
     print(status, out)
     return 1 if status == "reproduced" else 0
+
+
+# ---------------------------------------------------------------------------------------------------------------------
+# span trees: the layer's hooks and the recorder's key enhancement executed end to end over a modelled span registry
+
+# ops: ("new", span, nfields, parent) with parent in "ctx" (contextual: the current span, if any), "root" (explicit `parent: None`)
+#      or ("of", span) (explicit parent); ("enter", span); ("exit",); ("record", span); ("emit", nlabels)
+TREES = {
+    "child_then_record_on_parent": [("new", 1, 1, "ctx"), ("enter", 1), ("new", 2, 1, "ctx"), ("record", 1), ("enter", 2), ("emit", 1)],
+    "explicit_root_while_entered": [("new", 1, 1, "ctx"), ("enter", 1), ("new", 2, 1, "root"), ("enter", 2), ("emit", 1)],
+    "explicit_parent_not_entered": [("new", 1, 1, "ctx"), ("new", 2, 1, ("of", 1)), ("enter", 2), ("emit", 1)],
+    "fieldless_child_then_record_on_parent": [("new", 1, 1, "ctx"), ("enter", 1), ("new", 2, 0, "ctx"), ("record", 1), ("enter", 2), ("emit", 1)],
+    "fieldless_child_records_later": [("new", 1, 1, "ctx"), ("enter", 1), ("new", 2, 0, "ctx"), ("record", 1), ("record", 2), ("enter", 2), ("emit", 0)],
+    "no_current_span": [("new", 1, 1, "ctx"), ("emit", 1)],
+    "entered_then_exited": [("new", 1, 1, "ctx"), ("enter", 1), ("exit",), ("emit", 1)],
+    "fieldless_span_only": [("new", 1, 0, "ctx"), ("enter", 1), ("emit", 1)],
+    "record_replaces_own_value": [("new", 1, 1, "ctx"), ("record", 1), ("record", 1), ("enter", 1), ("emit", 1)],
+}
+TREES_THOROUGH = {
+    "three_levels": [("new", 1, 1, "ctx"), ("enter", 1), ("new", 2, 1, "ctx"), ("enter", 2), ("new", 3, 1, "ctx"), ("record", 2), ("enter", 3), ("emit", 1)],
+    "three_levels_fieldless_middle": [("new", 1, 1, "ctx"), ("enter", 1), ("new", 2, 0, "ctx"), ("enter", 2), ("new", 3, 1, "ctx"), ("record", 1), ("enter", 3), ("emit", 2)],
+    "sibling_of_entered": [("new", 1, 1, "ctx"), ("enter", 1), ("new", 2, 1, "ctx"), ("new", 3, 1, "ctx"), ("record", 2), ("enter", 3), ("emit", 1)],
+    "explicit_parent_while_other_entered": [("new", 1, 1, "ctx"), ("new", 2, 1, "ctx"), ("enter", 2), ("new", 3, 1, ("of", 1)), ("enter", 3), ("emit", 1)],
+}
+
+
+def span_tree(e3, thorough):
+    P = _e3.program(["metrics-tracing-context"])
+    include = z3.Function("filter_admits", z3.IntSort(), z3.BoolSort())
+    on_layer = [b for b in P.by_last["on_layer"] if b.impl and b.impl[1] == "MetricsLayer"][0]
+    new_b = [b for b in P.by_last["on_new_span"] if b.impl and b.impl[1] == "MetricsLayer"][0]
+    rec_b = [b for b in P.by_last["on_record"] if b.impl and b.impl[1] == "MetricsLayer"][0]
+    reg_b = {k: [b for b in P.by_last[f"register_{k}"] if b.impl and "TracingContext" in str(b.impl)][0] for k in ("counter", "gauge", "histogram")}
+    trees = dict(TREES)
+    if thorough:
+        trees.update(TREES_THOROUGH)
+    for ti, (tname, ops) in enumerate(trees.items()):
+        kind = ("counter", "gauge", "histogram")[ti % 3]
+        # ---- the concrete shape of the tree (the registry's own bookkeeping): parents, the entered stack before each op
+        parents, stack, curs = {}, [], []
+        for op in ops:
+            curs.append(stack[-1] if stack else None)
+            if op[0] == "new":
+                parents[op[1]] = (stack[-1] if stack else None) if op[3] == "ctx" else (None if op[3] == "root" else op[3][1])
+            elif op[0] == "enter":
+                stack.append(op[1])
+            elif op[0] == "exit":
+                stack.pop()
+        sids = sorted(parents)
+        fld = {}      # op index -> (name, value) of the field carried by that call
+
+        def mkfield(i):
+            fld[i] = (z3.Int(f"field_name_op{i}"), z3.Int(f"field_val_op{i}"))
+            return fld[i]
+        nml = [op for op in ops if op[0] == "emit"][0][1]
+        mk = [z3.Int(f"metric_name{i}") for i in range(nml)]
+        mv = [z3.Int(f"metric_val{i}") for i in range(nml)]
+        base = [z3.Distinct(*mk)] if nml > 1 else []
+        m = base_models(include)
+
+        def fields_map(ctx, fs):
+            return Agg({0: cellmap(ctx, [(Native("aname", k), Native("aval", v)) for k, v in fs])})
+
+        def opt(v):
+            return Enum(0, {}, "Option") if v is None else Enum(1, {1: Agg({0: v})}, "Option")
+
+        def span_of(eng, ctx, idv):
+            n = MC.load(eng, ctx, idv).data
+            return opt(Native("span", n) if n in ctx.statics["w_spans"] else None)
+
+        def m_get_labels(eng, ctx, f, path, args, dty):
+            e = MC.load(eng, ctx, args[0])
+            name = f"labels_{e.data}"
+            return opt(Ptr(("static", name)) if ctx.statics.get(name) is not None else None)
+
+        def m_insert_labels(eng, ctx, f, path, args, dty):
+            e = MC.load(eng, ctx, args[0])
+            old = ctx.statics.get(f"labels_{e.data}")
+            ctx.statics[f"labels_{e.data}"] = args[1]
+            return opt(old)
+
+        def m_downcast(eng, ctx, f, path, args, dty):
+            return opt(Ptr(("static", "layer"))) if "MetricsLayer" in path else opt(Ptr(("static", "registry")))
+
+        def m_get_default(eng, ctx, f, path, args, dty):
+            clo = args[0]
+
+            def script(c):
+                r = yield ("callv", clo, [Ptr(("static", "dispatch"))])
+                return r
+            return Script(script)
+
+        def m_scope(eng, ctx, f, path, args, dty):
+            n = MC.load(eng, ctx, args[0]).data
+            par = dict(ctx.statics["w_parents"])
+            items = []
+            while n is not None:
+                items.append(Native("span", n))
+                n = par.get(n)
+            return Native("liter", (tuple(items), 0))
+
+        def m_register(eng, ctx, f, path, args, dty):
+            ctx.observe("inner_register", key=MC.load(eng, ctx, args[1]), kind=path.rsplit("::", 1)[-1])
+            return Opaque("handle")
+        cur_id = lambda ctx: ctx.statics["w_cur"]
+        idptr = lambda n: Ptr(("static", f"id_{n}"))
+        m.update({
+            r"Context::span$|LookupSpan(<'_>)?>::span$": lambda eng, ctx, f, path, args, dty: span_of(eng, ctx, args[1]),
+            r"Context::lookup_current$": lambda eng, ctx, f, path, args, dty: opt(Native("span", cur_id(ctx)) if cur_id(ctx) is not None else None),
+            r"(Context|Dispatch)::current_span$": lambda eng, ctx, f, path, args, dty: Native("current", cur_id(ctx)),
+            r"Current::id$": lambda eng, ctx, f, path, args, dty: opt(idptr(MC.load(eng, ctx, args[0]).data) if MC.load(eng, ctx, args[0]).data is not None else None),
+            r"Current::is_none$": lambda eng, ctx, f, path, args, dty: z3.BoolVal(MC.load(eng, ctx, args[0]).data is None),
+            r"SpanRef::parent$": lambda eng, ctx, f, path, args, dty: (lambda p_: opt(Native("span", p_) if p_ is not None else None))(dict(ctx.statics["w_parents"]).get(MC.load(eng, ctx, args[0]).data)),
+            r"SpanRef::scope$": m_scope,
+            r"SpanRef::id$": lambda eng, ctx, f, path, args, dty: Native("id", MC.load(eng, ctx, args[0]).data),
+            r"SpanRef::extensions(_mut)?$": lambda eng, ctx, f, path, args, dty: Native("ext", MC.load(eng, ctx, args[0]).data),
+            r"Extensions(Mut)?::get(_mut)?$": m_get_labels, r"ExtensionsMut::insert$": m_insert_labels,
+            r"Attributes::parent$": lambda eng, ctx, f, path, args, dty: (lambda a: opt(idptr(a[1][1]) if isinstance(a[1], tuple) else None))(MC.load(eng, ctx, args[0]).data),
+            r"Attributes::is_root$": lambda eng, ctx, f, path, args, dty: z3.BoolVal(MC.load(eng, ctx, args[0]).data[1] == "root"),
+            r"Attributes::is_contextual$": lambda eng, ctx, f, path, args, dty: z3.BoolVal(MC.load(eng, ctx, args[0]).data[1] == "ctx"),
+            r"Attributes::values$": lambda eng, ctx, f, path, args, dty: Native("values", MC.load(eng, ctx, args[0]).data[0]),
+            r"^Record::new$": lambda eng, ctx, f, path, args, dty: Native("record", MC.load(eng, ctx, args[0]).data),
+            r"(Record|ValueSet)::is_empty$": lambda eng, ctx, f, path, args, dty: z3.BoolVal(len(MC.load(eng, ctx, args[0]).data) == 0),
+            r"(Record|ValueSet)::len$": lambda eng, ctx, f, path, args, dty: bv(len(MC.load(eng, ctx, args[0]).data)),
+            r"^Labels::from_record$": lambda eng, ctx, f, path, args, dty: fields_map(ctx, MC.load(eng, ctx, args[0]).data),
+            r"(^|::)get_default$": m_get_default, r"Dispatch::downcast_ref$": m_downcast,
+            r"as Recorder>::register_(counter|gauge|histogram)$": m_register,
+            r"^<(IndexMap|HashMap) as Clone>::clone$": lambda eng, ctx, f, path, args, dty: MC.deep_copy(ctx, MC.load(eng, ctx, args[0])),
+        })
+        m2 = dict(m)
+        m2.update(models.BASE)
+        for k in [k for k in m2 if k in m]:
+            m2[k] = m[k]
+        eng = sym.Engine(P, models=m2, loop_bound=8, max_paths=20000)
+        eng.merging = False
+        ctx0 = sym.Ctx(eng, 1)
+        ctx0.statics = {"w_spans": (), "w_parents": (), "w_cur": None, "dispatch": Opaque("dispatch"), "registry": Opaque("registry"),
+                        "layer": Agg({0: Enum(0, {}, "Option")}), "tc": Agg({0: Opaque("inner"), 1: Opaque("filter")}),
+                        "key": Native("key", (Native("aname", z3.Int("metric")), MS.lvec(tuple(Native("label", (Native("aname", mk[i]), Native("aval", mv[i]))) for i in range(nml))))),
+                        "metadata": Opaque("metadata")}
+        for s in sids:
+            ctx0.statics[f"labels_{s}"] = None
+            ctx0.statics[f"id_{s}"] = Native("id", s)
+        fld.clear()
+        for i, op in enumerate(ops):
+            if (op[0] == "new" and op[2]) or op[0] == "record":
+                mkfield(i)
+
+        def script():
+            yield ("call", on_layer, [Ptr(("static", "layer")), Ptr(("static", "registry"))])
+            spans, pars = [], []
+            for i, op in enumerate(ops):
+                yield ("setstatic", "w_cur", curs[i])
+                if op[0] == "new":
+                    spans.append(op[1])
+                    pars.append((op[1], parents[op[1]]))
+                    yield ("setstatic", "w_spans", tuple(spans))
+                    yield ("setstatic", "w_parents", tuple(pars))
+                    yield ("setstatic", f"attrs_{i}", Native("attrs", ((fld[i],) if op[2] else (), op[3])))
+                    yield ("call", new_b, [Ptr(("static", "layer")), Ptr(("static", f"attrs_{i}")), Ptr(("static", f"id_{op[1]}")), Opaque("cx")])
+                elif op[0] == "record":
+                    yield ("setstatic", f"rec_{i}", Native("record", (fld[i],)))
+                    yield ("call", rec_b, [Ptr(("static", "layer")), Ptr(("static", f"id_{op[1]}")), Ptr(("static", f"rec_{i}")), Opaque("cx")])
+                elif op[0] == "emit":
+                    yield ("call", reg_b[kind], [Ptr(("static", "tc")), Ptr(("static", "key")), Ptr(("static", "metadata"))])
+            return UNIT
+        leaves = eng.run_script(1, tname, script, ctx0=ctx0)
+        e3.absorb(eng)
+        done = [l for l in leaves if l.status == "done"]
+        other = z3.Or(*[l.taken() for l in leaves if l.status != "done"] or [z3.BoolVal(False)])
+        # ---- the rule, computed on the tree: a span's labels are a priority list (first match wins)
+        lab, cur_final = {}, None
+        for i, op in enumerate(ops):
+            if op[0] == "new":
+                own = [fld[i]] if op[2] else []
+                lab[op[1]] = own + list(lab.get(parents[op[1]], []) if parents[op[1]] is not None else [])
+            elif op[0] == "record":
+                lab[op[1]] = [fld[i]] + lab[op[1]]
+            elif op[0] == "emit":
+                cur_final = curs[i]
+        span_entries = list(lab.get(cur_final, [])) if cur_final is not None else []
+        entries = [(mk[i], mv[i], None) for i in range(nml)] + [(k, v, include(k)) for k, v in span_entries]
+
+        def exp_has(n):
+            return z3.Or(*[z3.And(k == n, g) if g is not None else k == n for k, v, g in entries] or [z3.BoolVal(False)])
+
+        def exp_val(n):
+            r = z3.IntVal(-1)
+            for k, v, g in reversed(entries):
+                r = z3.If(z3.And(k == n, g) if g is not None else k == n, v, r)
+            return r
+        bad = {"rule": [], "dup": [], "once": []}
+        for l in done:
+            obs = [(ev.guard, pl) for (lb, ev, pl) in l.ctx.obs if lb == "inner_register"]
+            # paths through a call that end in the same state are merged: an observation counts where its guard holds
+            bad["once"].append(z3.And(l.taken(), z3.Sum(*[z3.If(g, 1, 0) for g, pl in obs], z3.IntVal(0)) != 1))
+            for g, pl in obs:
+                k = pl["key"]
+                labs = k.data[1].data
+                names = [x.data[0].data for x in labs]
+                vals = [x.data[1].data for x in labs]
+                res_has = lambda n: z3.Or(*[names[j] == n for j in range(len(labs))] or [z3.BoolVal(False)])
+                wrong = [z3.Or(z3.Not(exp_has(names[j])), vals[j] != exp_val(names[j])) for j in range(len(labs))]
+                missing = [z3.And(gg if gg is not None else z3.BoolVal(True), z3.Not(res_has(kk))) for kk, v, gg in entries]
+                bad["rule"].append(z3.And(l.taken(), g, z3.Or(*(wrong + missing) or [z3.BoolVal(False)])))
+                bad["dup"].append(z3.And(l.taken(), g, z3.Or(*[names[a] == names[b] for a in range(len(labs)) for b in range(a + 1, len(labs))] or [z3.BoolVal(False)])))
+        cname = f"c17_tree_{tname}"
+        bounds = (f"span tree `{tname}`: {' ; '.join(' '.join(str(x) for x in op) for op in ops)} (register_{kind}); MetricsLayer::on_layer/on_new_span/on_record and "
+                  f"TracingContext::register_{kind} -> enhance_key -> with_labels executed over a modelled span registry; field/label names and values and the filter's verdict per name symbolic "
+                  f"(names may coincide across levels and with the metric's own); {len(done)} paths")
+        tc = tree_confirm(tname, ops, kind, dict(fld), mk, mv, include)
+        specs = [dict(name=f"{cname}:witness", desc="returns", bounds=bounds, cons=base + [z3.Or(*[l.taken() for l in done] or [z3.BoolVal(False)])], expect_unsat=False),
+                 dict(name=f"{cname}:returns", desc="panics or exceeds a loop bound", bounds=bounds, cons=base + [other], expect_unsat=True),
+                 dict(name=f"{cname}:registers_once", desc="the inner recorder is not called exactly once", bounds=bounds, cons=base + [z3.Or(*bad["once"] or [z3.BoolVal(False)])], expect_unsat=True),
+                 dict(name=f"{cname}:span_tree_labels_follow_the_rule", desc="the key that reaches the inner recorder is not: the metric's own labels, plus the admitted fields of the current span and those its "
+                      "ancestors had when each descendant was created (metric > inner > outer; a later record() replaces that span's value only)", bounds=bounds,
+                      cons=base + [z3.Or(*bad["rule"] or [z3.BoolVal(False)])], expect_unsat=True),
+                 dict(name=f"{cname}:no_duplicate_names", desc="the key that reaches the inner recorder contains a label name twice", bounds=bounds, cons=base + [z3.Or(*bad["dup"] or [z3.BoolVal(False)])], expect_unsat=True)]
+        for sp in specs[2:]:
+            sp["on_model"] = tc
+
+        def validate(ob, model, tc=tc):
+            # translator validation: the witness's inputs through the real code; the native oracle must agree that no rule is violated
+            st0, det0 = ob.status, ob.detail
+            tc(ob, model)
+            out = (ob.sample or {}).get("native_replay", {}).get("output", "")
+            agree = "natively_violated=[]" in out
+            ob.status, ob.reproduced = (st0 if agree else "error"), None
+            ob.detail = det0 + (" | the witness's inputs replayed natively: the native oracle agrees (no rule violated)" if agree else
+                                " | the witness's inputs replayed natively: the native oracle DISAGREES with the encoding: " + out[-300:])
+        specs[0]["on_witness"] = validate
+        check.discharge_many(e3.res, specs, 120)
